@@ -7,7 +7,15 @@ MCDelims == {<<44>>, CA, <<44, 44>>, <<97, 44>>, CNT, <<>>, <<97, 97>>, <<97, 97
 \* split at every character (empty delimiter) or at one of them
 EdgeStrs   == StrsUpTo(EdgeChars, 2) \cup {Concat(<<x, CA, y>>) : x, y \in EdgeChars}
 EdgeDelims == {<<>>, Encode(65535), Encode(128)}
-MCPairs  == (MCStrs \X MCDelims) \cup (EdgeStrs \X EdgeDelims)
+\* third family: delimiters of 5, 12, 13 and 255..257 bytes (lengths kept in narrow integers wrap at 256; searches switch
+\* algorithm for longer needles), in a string that also holds a near miss of the delimiter differing in one byte
+LongDelim(n) == RepSeq(<<97, 98>>, n \div 2) \o (IF n % 2 = 1 THEN <<97>> ELSE <<>>)
+Flip(dd, j)  == [dd EXCEPT ![j] = 99]
+LongPairs == UNION {UNION {{ <<<<120>> \o Flip(LongDelim(n), j) \o <<121>> \o LongDelim(n) \o <<122>>, LongDelim(n)>>,
+                      <<<<120>> \o LongDelim(n) \o <<121>> \o Flip(LongDelim(n), j) \o <<122>>, LongDelim(n)>>,
+                      <<LongDelim(n) \o <<121>> \o LongDelim(n), LongDelim(n)>> }
+                    : j \in {1, 2, n - 3, n - 1, n} } : n \in {5, 12, 13, 255, 256, 257}}
+MCPairs  == (MCStrs \X MCDelims) \cup (EdgeStrs \X EdgeDelims) \cup LongPairs
 Line == [m |-> "Split", kind |-> kind, s |-> s, d |-> d, path |-> hist, fwd |-> fwd,
          st |-> [lo |-> lo, hi |-> hi, fin |-> IF phase = "Finished" THEN 1 ELSE 0],
          cn |-> IF CanNext THEN 1 ELSE 0, cb |-> IF CanNextBack THEN 1 ELSE 0,
